@@ -15,6 +15,9 @@ pub trait BufRead {
     spec fn budget(&self) -> nat;
     /// number of non-interrupt errors returned so far
     spec fn nfaults(&self) -> nat;
+    /// prophecy: the length of the piece that the next fill_buf that is not interrupted will return
+    /// (by definition an interrupted attempt does not change it)
+    spec fn next_len(&self) -> nat;
 
     fn fill_buf(&mut self) -> (r: io::Result<&[u8]>)
         ensures
@@ -23,13 +26,14 @@ pub trait BufRead {
                 Ok(n) => {
                     &&& n@.len() <= old(self).rest().len() && n@ == old(self).rest().subrange(0, n@.len() as int)
                     &&& n@.len() == 0 ==> old(self).rest().len() == 0
-                    &&& final(self).avail() == n@.len()
+                    &&& final(self).avail() == n@.len() && n@.len() == old(self).next_len()
                     &&& final(self).budget() == old(self).budget() && final(self).nfaults() == old(self).nfaults()
                 },
                 Err(e) => {
                     &&& final(self).avail() == 0
                     &&& if e.k == io::ErrorKind::Interrupted {
                             final(self).budget() < old(self).budget() && final(self).nfaults() == old(self).nfaults()
+                                && final(self).next_len() == old(self).next_len()
                         } else {
                             final(self).budget() == old(self).budget() && final(self).nfaults() == old(self).nfaults() + 1
                         }
